@@ -792,6 +792,66 @@ def rule_adjust_limit(rep, repo):
                 instance=cfg)
 
 
+def rule_scheduler_limit(rep, repo):
+  """R8: AutoQKerasScheduler.get_limit builds the limit dictionary of the
+  hyper-model that searches one block.  Interpreted on synthetic blocks: a
+  layer enters the block limit only through its own class entry (under its
+  own name) or through a name pattern (patterns merged into one exact
+  '^(a|b)$' entry); a layer covered by neither stays out, wherever it stands
+  in the block - the hyper-model quantizes every layer it finds a limit
+  for."""
+  aq = repo.module(AQ)
+  ci = aq.classes.get("AutoQKerasScheduler")
+  if ci is None or "get_limit" not in ci.methods:
+    raise AnalysisError("anchor-missing AutoQKerasScheduler.get_limit")
+  unit = "%s::AutoQKerasScheduler.get_limit" % aq.relpath
+  rep.unit(unit)
+  loc = aq.loc(ci.methods["get_limit"])
+
+  def L(cls, name):
+    return Mock(name, {"name": name,
+                       "__class__": Mock("class", {"__name__": cls})})
+  limit = {"Dense": [4, 4, 4], "^c.*": [2, 2, 2], "QActivation": [8]}
+  layers = {n: L(c, n) for c, n in (
+      ("Dense", "d0"), ("Activation", "a0"), ("Conv2D", "c0"),
+      ("Flatten", "f0"), ("Conv2D", "c1"), ("Dense", "d1"),
+      ("BatchNormalization", "b0"), ("QActivation", "q0"))}
+  blocks = {
+      "covered then uncovered": (["d0", "a0"], {"d0": [4, 4, 4]}),
+      "uncovered first": (["a0", "d0", "b0"], {"d0": [4, 4, 4]}),
+      "pattern, uncovered, class": (
+          ["c0", "f0", "d1", "a0"], {"^(c0)$": [2, 2, 2],
+                                      "d1": [4, 4, 4]}),
+      "two pattern members around an uncovered layer": (
+          ["c0", "b0", "c1", "q0", "a0"], {"^(c0|c1)$": [2, 2, 2],
+                                            "q0": [8]}),
+      "nothing covered": (["a0", "f0", "b0"], {}),
+  }
+  for bname, (names, want) in sorted(blocks.items()):
+    o = Obj(ci)
+    o.attrs.update({"limit": {k: list(v) for k, v in limit.items()},
+                    "grouped_patterns": {"P": list(names)}})
+    model = Mock("model", {"get_layer": lambda pe, a, k: layers[a[0]]})
+    pe = PE(repo)
+    pe.opaque_ext = True
+    cfg = "block %s: %s" % (bname, "/".join(names))
+    try:
+      got = pe.call(pe.getattr(o, "get_limit"), [model, "P"], {})
+    except PyRaise as e:
+      rep.fail("R8", unit, "get_limit-raises", "%s raises %s" % (cfg, e),
+               loc=loc, instance=cfg)
+      continue
+    got = {k: list(v) if isinstance(v, (list, tuple)) else v
+           for k, v in dict(got).items()} if isinstance(got, dict) else got
+    rep.check(got == want, "R8", unit, "block-limit",
+              "%s: the block limit is %r, expected %r (limit %r)" % (
+                  cfg, got, want, limit), loc=loc, instance=cfg,
+              observed=str(got))
+    rep.check(o.attrs["limit"] == limit, "R8", unit, "user-limit-modified",
+              "%s: the user's limit dictionary became %r" % (
+                  cfg, o.attrs["limit"]), loc=loc, instance=cfg)
+
+
 def run(rep, repo, tier):
   rep.trusted.append("keras-tuner's hp.Choice / hp.Fixed return one of the "
                      "offered values; re.match semantics")
@@ -804,6 +864,8 @@ def run(rep, repo, tier):
   rule_forgiving(rep, repo)
   rule_size(rep, repo)
   rule_act_size(rep, repo)
+  rule_scheduler_limit(rep, repo)
+  rep.require_instances("R8", 10)
   rep.require_instances("R1", 8)
   rep.require_instances("R2", 18)
   rep.require_instances("R3", 4)
